@@ -14,12 +14,14 @@
   where allowed / NIL), zero padding of numerals and the tolerated deviations.
 
   What is proved (`fidelity_partial`): the statement for every response the relation covers:
-      FETCH responses whose attributes are ENVELOPE (all ten fields; address lists of any length),
+      FETCH responses whose attributes are BODYSTRUCTURE / BODY (text, message/rfc822, basic and
+      multipart parts, body fields, parameters, encoding, disposition, language, location, extension
+      data, nested to the depth budget), ENVELOPE (all ten fields; address lists of any length),
       INTERNALDATE, FLAGS, MODSEQ, RFC822, RFC822.HEADER, RFC822.SIZE, RFC822.TEXT, UID,
       X-GM-LABELS, X-GM-MSGID, in any number and order, wrapped as `* n FETCH (...) *SP CRLF`.
   What is missing from the full statement: the remaining response kinds (status responses and
   their codes, mailbox data, capability, ACL, quota, ID, metadata, VANISHED ...) and the
-  attributes BODY[section], BODYSTRUCTURE / BODY.  For those kinds the property is decided by the
+  attribute BODY[section].  For those kinds the property is decided by the
   correspondence run only (type-directed values x independent printer x both implementations), as
   recorded in the evidence file.
 -/
@@ -57,6 +59,11 @@ theorem envelope_fidelity (v : Envelope) (e : Bytes) (h : EncEnvelope v e) (rest
 theorem attribute_fidelity (v : AttributeValue) (e : Bytes) (h : EncAttr v e) (c : UInt8) (rest : Bytes)
     (hc : c = 32 ∨ c = 41) : msgAtt (e ++ c :: rest) = .ok v (c :: rest) :=
   msgAtt_enc v e h (c :: rest) ⟨c, rest, rfl, by rcases hc with rfl | rfl <;> decide⟩
+
+/-- body structures: every field of every part in its own slot, children in order, to any depth
+    within the nesting budget (33 = the outermost level plus MAX_NESTING) -/
+theorem body_structure_fidelity (v : BodyStructure) (e : Bytes) (h : EncBody 33 v e) (rest : Bytes) :
+    body (e ++ rest) = .ok v rest := body_enc v e h Any rest trivial
 
 /-- numbers: any zero padding, value unchanged (32-bit and 64-bit fields) -/
 theorem number_fidelity (n : Nat) (hn : n < 2 ^ 32) (e : Bytes) (h : EncNumber n e) (c : UInt8) (rest : Bytes)
